@@ -119,7 +119,9 @@ func runC15(c *vc.Ctx) error {
 	c.Ev.Rule = "(a) one case = (full key, n): server-side extraction+hash (server.GetPKAndHashSum, node.GetHashedPartitionID, live NamespaceMgr lookup for hosted n) vs SDK PKey.ShardingKey+GetHashedPartitionID; " +
 		"(b) one case = a key written through the redis protocol on an n-partition namespace and then read with the real read handler of EVERY partition's KVNode; " +
 		"(c) one case = a command sent to a server that does not host the owner partition; (d) one case = a multi-key DEL/EXISTS/MGET/PLSET whose keys span >= 2 partitions, compared with the same command on a real 1-partition namespace and a Go map. " +
-		"non-trivial+distinct: (a) distinct (key class, n); (b,c) distinct (n, data type, owner partition); (d) distinct (command, n, number of partitions spanned, has duplicates)."
+		"(d2) one case = a multi-key DEL/EXISTS/PLSET or a pipeline of SETs naming keys of TWO namespaces with different partition counts, every partition store of both namespaces read before and after; " +
+		"(e) one case = a key written after a namespace was deleted and created again under the same name with another partition count, its local partitions replaced one by one (Destroy old, InitNamespaceNode+Start new, interleaved). " +
+		"non-trivial+distinct: (a) distinct (key class, n); (b,c) distinct (n, data type, owner partition); (d) distinct (command, n, number of partitions spanned, has duplicates); (d2) distinct (command, namespace pair, key count); (e) distinct (p1->p2, order, data type, owner, owner hosted)."
 	c.Ev.Assume("engines mem and pebble only (RocksDB build is a link shim, DESIGN 1.2)")
 	c.Ev.Assume("namespace names are valid names without ':' (the server rejects others at namespace creation); table and key bytes are arbitrary")
 	c.Ev.Assume("live partition lookup is exercised for hosted n only (quick 1,2,3,8; thorough also 5,16); n up to 1024 is covered through the exported hash functions and the modulo on the pk sum")
@@ -195,7 +197,10 @@ func runC15(c *vc.Ctx) error {
 	c15NonOwner(c, []*Host{s1, s2}, split, otherEng)
 	fmt.Printf("C15 (c) done: %d evaluations so far\n", c.Ev.Evals())
 	c15MultiKey(c, s0, liveNs, eng)
+	c15CrossNamespace(c, s0, liveNs, eng)
 	fmt.Printf("C15 (d) done: %d evaluations so far\n", c.Ev.Evals())
+	c15Recreate(c, s0, eng)
+	fmt.Printf("C15 (e) done: %d evaluations so far\n", c.Ev.Evals())
 	c.Ev.Set("peak_scratch_mib", dirSize(c.Scratch)>>20)
 	return nil
 }
